@@ -78,7 +78,7 @@ theorem receipt_logs_exact (cfg : Cfg) (h13 : cfg.p013 = true) (rv : World → W
           split
           · exact LogsExtend.of_same (World.same_setNonce _ _ _)
           · exact LogsExtend.refl w0
-        exact h1.trans (callFrameK_extend (cfg.env rv tx.origin) hrv hkc 0 false tx.origin .call target tx.value _
+        exact h1.trans (callFrameK_extend (cfg.env rv tx.origin) hrv hkc 0 false tx.origin .call target tx.value _ _
           (fun d r s w1 => run_extend (cfg.env rv tx.origin) hrv hkc tx.body d r s w1 [] []) _)
     have hfin : ∀ w0 r, LogsExtend w0 r.world → LogsExtend w0 (txFinish cfg rv tx w0 r) := by
       intro w0 r hr
